@@ -167,12 +167,14 @@ CLAIMED = {
         "the change map is built completely before any line is touched (a failing RENUM leaves the listing as it was); lines below old-start are not in "
         "the map; the j-th line at or above old-start maps to new-start + j*step <= 65529; the renumbered listing is rebuilt in ascending order; a line is "
         "rewritten by replacing character ranges of its listed text, and for ranges that follow one another every character outside them is copied in place; "
-        "a line without operands keeps its tokens; RENUM refuses a program with compile errors (Props/C14.v, Proofs/Renum.v, Splice.v).",
+        "a line without operands keeps its tokens; RENUM refuses a program with compile errors; every range the renumbering visitor collects from a "
+        "parsed line -- any statement form, any nesting of IF -- is exactly the range of one number token of the line in its listed text, and that "
+        "range cut out of the text is the token's digit string (Props/C14.v, Proofs/Renum.v, Splice.v, ParseCols.v, RenumCols.v).",
         "link-clean programs with every referencing form, non-ASCII text before operands, line 0 and omitted operands renumbered with boundary and random "
         "argument triples on model and crate; monitors check the numbering formula, that only line-number operands changed (token-wise), that failure "
         "leaves the listing byte-identical, and that the renumbered program runs identically modulo reported line numbers.",
-        "PARTIAL: that the replaced ranges are exactly the operands' columns, in ascending order, and that the fresh scan of the rewritten text returns the "
-        "other tokens unchanged is decided by the monitor, not proved.",
+        "PARTIAL: that the collected ranges come in ascending order without overlap, and that the fresh scan of the rewritten text returns the other "
+        "tokens unchanged, is decided by the monitor, not proved.",
         "Coq theorems on the change map and on the text splice + differential and relational (before/after) check"),
     "C15": entry(
         "the stored lines are an ordered finite map: a numbered line inserts or replaces and nothing else changes, a bare number deletes, DELETE a-b removes "
